@@ -118,7 +118,7 @@ def run(ctx):
     tterms = []
     for n in range(1, top + 1):
         for cls, A, spec in hermitian_cases(rng, n, ctx.quick()):
-            for sname, s in (('1', 1.0), ('2^27', 2.0 ** 27), ('2^-27', 2.0 ** -27)) if (cls.startswith('spectrum') or cls in ('integer', 'zero-leading-entry')) else (('1', 1.0),):
+            for sname, s in (('1', 1.0), ('2^27', 2.0 ** 27), ('2^-27', 2.0 ** -27), ('2^-40', 2.0 ** -40)) if (cls.startswith('spectrum') or cls in ('integer', 'zero-leading-entry')) else (('1', 1.0),):
                 An = qx.to_np(A) * s; sc = max(fro(An), 1e-300)
                 inp = {'n': n, 'class': cls, 'scale': sname, 'A': [[[str(c) for c in a.t()] for a in row] for row in A]}
                 suffix = '' if s == 1.0 else ':scaled'
@@ -192,7 +192,7 @@ def run(ctx):
             if bad: ctx.broken.append(f'Householder model ({fn}) and implementation disagree on {len(bad)} of {len(res)} case(s), first: {terms[bad[0]][:400]}')
     ctx.cov['rule'] = (f'reflectors: {NV} random columns of length 1..5 in seven classes (generic, zero, zero leading entry, only leading entry, pure-imaginary / negative-real leading entry): unitarity, H a = ||a|| e1, model agreement. '
                        f'Hermitian matrices n = 1..{top}: integer, generic, zero first sub-column, zero leading entry (first and second column), already reduced, tridiagonal, diagonal, zero, prescribed spectra '
-                       '(simple mixed-sign, repeated, all equal, rank one, clustered) from exact rational unitaries, scaled by 2^27 and 2^-27: P unitary, P A P^H = B, B real symmetric tridiagonal, real eigenvalues equal to the spectrum, '
+                       '(simple mixed-sign, repeated, all equal, rank one, clustered) from exact rational unitaries, scaled by 2^27, 2^-27 and 2^-40: P unitary, P A P^H = B, B real symmetric tridiagonal, real eigenvalues equal to the spectrum, '
                        'V unitary, A V = V diag(lambda), A = V diag(lambda) V^H; non-Hermitian / non-square / 1x1 rejections. Discarded = correspondence cases with a tiny non-zero sub-column (reflector not determined).')
     return cm.finish(ctx, 'proof', '', ASSUME)
 
